@@ -131,7 +131,7 @@ impl Scenario for C07 {
             components_stubbed: &["TCP (SimNet)", "EPMD (stub)", "remote node (handshake acceptor + independent frame, header and term reader)"],
             assumptions: &["payloads come from the sub-space with an unambiguous denotation (DESIGN 2.4); node-local identifier forms are not generated"],
             fault_prefixes: &["fault.", "net."],
-            expected_probes: &["probe.c07.frame_checked_passthrough", "probe.c07.frame_checked_header", "probe.c07.interleaved_tasks", "probe.c07.op_failed_after_fault", "probe.c07.unlink_id_above_2_63", "probe.c07.asymmetric_flag_offer", "probe.c07.nothing_written_after_failed_handshake"],
+            expected_probes: &["probe.c07.frame_checked_passthrough", "probe.c07.frame_checked_header", "probe.c07.interleaved_tasks", "probe.c07.op_failed_after_fault", "probe.c07.unlink_id_above_2_63", "probe.c07.asymmetric_flag_offer", "probe.c07.node_local_identifier", "probe.c07.nothing_written_after_failed_handshake"],
         }
     }
 }
@@ -324,10 +324,15 @@ async fn scenario(w: &Arc<World>, p: &Plan) {
             if op.pause_ms > 0 {
                 tokio::time::sleep(Duration::from_millis(u64::from(op.pause_ms))).await;
             }
-            let to = peer_pid_for(0, ix, op.seed);
+            let mut rr = Rng::new(op.seed ^ 0x77);
+            // identifiers in plain and in node-local form (the opaque bytes must go out verbatim)
+            let mut to = peer_pid_for(0, ix, op.seed);
+            if op.seed % 4 == 0 {
+                to = Val::Local(rr.bytes(8), Box::new(to));
+                w.stat("probe.c07.node_local_identifier");
+            }
             let from = local_pid_for(0);
             let (to_e, from_e) = (to_pid(&to).unwrap(), to_pid(&from).unwrap());
-            let mut rr = Rng::new(op.seed ^ 0x77);
             let mut want = Want { task: 0, idx: ix, kind: op.kind.clone(), control: Vec::new(), payload: None, ok: false, err: String::new() };
             let res = match op.kind.as_str() {
                 "link" => {
@@ -343,7 +348,10 @@ async fn scenario(w: &Arc<World>, p: &Plan) {
                     conn.unlink(&from_e, &to_e, id).await
                 }
                 "monitor" | "demonitor" => {
-                    let rf = wire::gen_ref(&mut rr, None);
+                    let mut rf = wire::gen_ref(&mut rr, None);
+                    if op.seed % 3 == 0 {
+                        rf = Val::Local(rr.bytes(8), Box::new(rf));
+                    }
                     let tag = if op.kind == "monitor" { 19 } else { 20 };
                     want.control = vec![Some(Val::int(tag)), Some(from.clone()), Some(to.clone()), Some(rf.clone())];
                     if op.kind == "monitor" { conn.monitor(&from_e, &to_e, &to_ref(&rf).unwrap()).await } else { conn.demonitor(&from_e, &to_e, &to_ref(&rf).unwrap()).await }
